@@ -1,9 +1,9 @@
 """C06 — distributed-mesh invariants at sync points (DESIGN.md section 6, L3 Dist)."""
-from . import streams_dist
+from . import streams_dist, streams_dist2
 
 ID = 'C06'
 PROPS_MODULE = ['Refine.Props.C06']
-STREAMS = streams_dist.STREAMS
+STREAMS = streams_dist.STREAMS + streams_dist2.STREAMS
 TECHNIQUE = 'Lean 4 theorems about an executable SPMD model (World = list of per-rank states) + differential ' \
             'execution against the real ref_node/ref_cell/ref_migrate/ref_adapt code under mpiexec + the model ' \
             'invariant evaluated on state dumps of real runs'
